@@ -21,7 +21,7 @@ import (
 // events is executed on one cluster; a model says which attempts must succeed.
 
 type c12Op struct {
-	Kind  int // 9 sign cancelled while the signer of one node is still being prepared, 10 keygen with two extra KeyGen calls on one node while it runs; 0 keygen complete, 1 keygen one missing, 2 sign complete, 3 sign one missing, 4 sign cancelled midway, 5 two signs on different topics concurrently, 6 second sign on the same topic while the first runs, 7 replay recorded frames, 8 foreign frames (configured outsider / unknown node), 11 sign complete / 13 keygen / 14 sign in which one node's context ends inside the factory / Init / SetShareData / run entry of its protocol instance, 12 keygen complete while copies of the session's own live frames arrive under the source of the configured member that is not a participant (and of an unknown node)
+	Kind  int // 9 sign cancelled while the signer of one node is still being prepared, 10 keygen with two extra KeyGen calls on one node while it runs; 0 keygen complete, 1 keygen one missing, 2 sign complete, 3 sign one missing, 4 sign cancelled midway, 5 two signs on different topics concurrently, 6 second sign on the same topic while the first runs, 7 replay recorded frames, 8 foreign frames (configured outsider / unknown node), 11 sign complete / 15 sign in which one signer is cut off after the first barrier (fails at the second) followed by a replay of the dead session's synchroniser frames, 13 keygen / 14 sign in which one node's context ends inside the factory / Init / SetShareData / run entry of its protocol instance, 12 keygen complete while copies of the session's own live frames arrive under the source of the configured member that is not a participant (and of an unknown node)
 	Topic int
 	Who   int // missing party / cancelling party / duplicate caller (index)
 	At    int // deliveries before the cancellation / before the duplicate call
@@ -44,7 +44,7 @@ func genC12(t *rapid.T) c12Case {
 	n := rapid.IntRange(2, 8).Draw(t, "nops")
 	for i := 0; i < n; i++ {
 		c.Ops = append(c.Ops, c12Op{
-			Kind:  rapid.SampledFrom([]int{0, 1, 2, 2, 2, 3, 3, 4, 4, 5, 6, 7, 8, 9, 9, 10, 11, 11, 12, 13, 13, 14}).Draw(t, "kind"),
+			Kind:  rapid.SampledFrom([]int{0, 1, 2, 2, 2, 3, 3, 4, 4, 5, 6, 7, 7, 8, 9, 9, 10, 11, 11, 12, 13, 13, 14, 15, 15}).Draw(t, "kind"),
 			Topic: rapid.IntRange(0, 1).Draw(t, "topic"),
 			Who:   rapid.IntRange(0, 3).Draw(t, "who"),
 			At:    rapid.IntRange(0, 40).Draw(t, "at"),
@@ -256,6 +256,26 @@ func runC12(c c12Case) *vh.Outcome {
 				}
 				return out
 			}
+		}
+		// lateReplay delivers frames of finished sessions while no session is running. They must have no effect - in
+		// particular the nodes must not answer them: every frame that appears on the network afterwards is a residue
+		lateReplay := func(k int, pick func(i int) *sim.Frame) bool {
+			sentBefore := len(net.LogCopy())
+			for i := 0; i < k; i++ {
+				g := *pick(i)
+				net.Inject(&g)
+				info.LateDelivered++
+			}
+			if !drain() {
+				return false
+			}
+			for _, f := range net.LogCopy()[sentBefore:] {
+				if !f.Injected {
+					fail = vh.Failf("C12/late-traffic-answered", "no session is running, yet node %d answered late traffic of a finished session with a frame of type %d to node %d (%d bytes): the finished session left a handler behind (attempts so far: %v)", f.From, f.MsgType, f.To, len(f.Data), info.Attempts)
+					return false
+				}
+			}
+			return true
 		}
 		for _, op := range c.Ops {
 			topic := fmt.Sprintf("t%d", op.Topic)
@@ -561,14 +581,69 @@ func runC12(c c12Case) *vh.Outcome {
 				if len(recorded) == 0 {
 					continue
 				}
-				for i := 0; i < 1+op.Arg%6; i++ {
-					f := recorded[(op.Arg*7+i*13)%len(recorded)]
-					g := *f
-					net.Inject(&g)
-					info.LateDelivered++
+				if !lateReplay(1+op.Arg%6, func(i int) *sim.Frame { return recorded[(op.Arg*7+i*13)%len(recorded)] }) {
+					return
+				}
+			case 15: // signing in which one signer is cut off once the signers are agreed: the attempt fails at its SECOND barrier;
+				// afterwards the synchroniser traffic of the dead session is replayed to every node (as queries, too)
+				_, used := usedTopics[topic]
+				saf := false
+				if c.Silent && used && avoidL20 {
+					saf = true
+					info.StartAllFirst++
+				}
+				victim := parts[op.Who%n]
+				ctxs, cns := ctxFor(parts)
+				calls := mkCalls("sign", topic, parts, ctxs)
+				cut := false
+				start := len(tape.Snapshot())
+				net.Interpose = func(f *sim.Frame) []*sim.Frame {
+					if cut && (f.From == victim || f.To == victim) {
+						return nil
+					}
+					return []*sim.Frame{f}
+				}
+				hook := func(d *sim.Driver) {
+					if cut {
+						return
+					}
+					for _, e := range tape.Snapshot()[start:] {
+						if e.Kind == "init" && e.Node != victim {
+							cut = true // some node has prepared its signing instance: the first barrier is behind it
+						}
+					}
+				}
+				info.Attempts = append(info.Attempts, fmt.Sprintf("sign %s with node %d cut off after the first barrier", topic, victim))
+				info.Retries++
+				before := len(net.LogCopy())
+				ok := runAttempt(calls, saf, hook)
+				net.Interpose = nil
+				if !ok {
+					return
+				}
+				for _, cn := range cns {
+					cn()
 				}
 				if !drain() {
 					return
+				}
+				usedTopics[topic] = "failed"
+				var syncs []*sim.Frame
+				for _, f := range net.LogCopy()[before:] {
+					if f.MsgType == 1 && !f.Injected && int(f.To) <= n {
+						syncs = append(syncs, f)
+					}
+				}
+				if len(syncs) > 0 {
+					if !lateReplay(min(len(syncs), 24), func(i int) *sim.Frame {
+						g := *syncs[(i*5+op.Arg)%len(syncs)]
+						if len(g.Data) > 0 && i%2 == 1 {
+							g.Data = append([]byte{2}, g.Data[1:]...) // the same frame as a query
+						}
+						return &g
+					}) {
+						return
+					}
 				}
 			case 8: // frames from a configured non-participant and from an unknown node
 				if len(recorded) == 0 {
